@@ -139,6 +139,8 @@ fn main() {
                 seed: a[6],
                 crc: false,
                 pause_before: if a[5] == u64::MAX { None } else { Some(a[5] as u32) },
+                pause_ms: 1980,
+                yields: a.get(7).cloned().unwrap_or(0) as u8,
             };
             let case = cfdp_verif::props::c08::build(&script);
             let tr = cfdp_verif::sim::run_scenario(&case.sc);
